@@ -1525,6 +1525,11 @@ func (c *Client) checkConn(client *smtp.Client) error {
 		return ErrNoActiveConnection
 	}
 
+	// extend the deadline first, so that the NOOP is bound by the timeout as well
+	if err := client.UpdateDeadline(c.connTimeout); err != nil {
+		return ErrDeadlineExtendFailed
+	}
+
 	c.mutex.RLock()
 	noNoop := c.noNoop
 	c.mutex.RUnlock()
@@ -1532,10 +1537,6 @@ func (c *Client) checkConn(client *smtp.Client) error {
 		if err := client.Noop(); err != nil {
 			return ErrNoActiveConnection
 		}
-	}
-
-	if err := client.UpdateDeadline(c.connTimeout); err != nil {
-		return ErrDeadlineExtendFailed
 	}
 	return nil
 }
